@@ -21,6 +21,8 @@ pub mod subject;
 pub mod subscriber;
 pub mod subscription;
 pub mod type_hint;
+#[cfg(feature = "verif_hooks")]
+pub mod verif_hooks;
 
 pub mod prelude {
 
